@@ -146,7 +146,7 @@ func exploreSchedules(t *testing.T, at time.Duration, body func(g *gate) func(sc
 // ---- the three fan-outs through R_ers ---------------------------------------------------------------
 
 type c17Case struct {
-	Kind     string `json:"kind"` // create delete cleanup-active cleanup-canary
+	Kind     string `json:"kind"` // create delete delete+create cleanup-active cleanup-canary
 	K        int    `json:"batch"`
 	RecentRU bool   `json:"rolling_update_started_less_than_5min_ago"`
 }
@@ -173,6 +173,15 @@ func c17Build(c c17Case, now time.Time) (*w.State, string) {
 		for i := 0; i < c.K; i++ {
 			n := fmt.Sprintf("n%d", i+1)
 			objs = append(objs, w.MkNode(n, nil), c03Pod(cOldAvail, "ns", rs.Name, "foo", n, rs.Spec.TemplateGeneration, now))
+		}
+	case "delete+create":
+		// a sync that both deletes (outdated pods, within the budget) and creates (nodes without a pod): two fan-outs in one sync
+		for i := 0; i < c.K; i++ {
+			n := fmt.Sprintf("n%d", i+1)
+			objs = append(objs, w.MkNode(n, nil))
+			if i%2 == 0 {
+				objs = append(objs, c03Pod(cOldAvail, "ns", rs.Name, "foo", n, rs.Spec.TemplateGeneration, now))
+			}
 		}
 	case "cleanup-active", "cleanup-canary":
 		// k pods on nodes that do not exist any more: all of them go through the clean-up fan-out
@@ -267,9 +276,12 @@ func TestC17(t *testing.T) {
 	}
 	var cases []c17Case
 	for k := 1; k <= maxK; k++ {
-		for _, kind := range []string{"create", "delete", "cleanup-active", "cleanup-canary"} {
+		for _, kind := range []string{"create", "delete", "delete+create", "cleanup-active", "cleanup-canary"} {
 			for _, recent := range []bool{false, true} {
 				if kind != "cleanup-active" && recent {
+					continue
+				}
+				if kind == "delete+create" && k < 2 {
 					continue
 				}
 				cases = append(cases, c17Case{kind, k, recent})
